@@ -172,7 +172,7 @@ Proof.
   induction G as [|v G IH]; intros HG Hn; [reflexivity|].
   cbn [ad_pairs]. rewrite holds_all_app'.
   unfold noneb in Hn. cbn [forallb] in Hn. apply andb_true_iff in Hn. destruct Hn as [H1 H2].
-  rewrite pairs_with by (intros; apply HG; [left|right]; auto).
+  rewrite pairs_with by (first [apply HG; left; reflexivity | intros; apply HG; right; auto]).
   rewrite H1. simpl. apply IH; auto. intros; apply HG; right; auto.
 Qed.
 
